@@ -250,11 +250,10 @@ def blockEffs (b : Blk) (loc : Nat) : List Eff :=
   ++ (if hasFlag b.flags blkLastBlock then mkEff b.inode (.start loc) else [])
 
 def wStep (W : WSt) (b : Blk) : Except Err WSt :=
-  let wflags := clearFlag b.flags blkFlagInternal
-  match BlockWriter.writeDataBlock W.wr b.chk wflags b.data with
+  match BlockWriter.writeDataBlock W.wr b.chk (clearFlag b.flags blkFlagInternal) b.data with
   | .error e => .error (.writer e)
   | .ok (wr', loc) =>
-    .ok { wr := wr', calls := W.calls ++ [⟨b.chk, wflags, b.data⟩],
+    .ok { wr := wr', calls := W.calls ++ [⟨b.chk, clearFlag b.flags blkFlagInternal, b.data⟩],
           sets := if !hasFlag b.flags blkIsSparse && b.data.length != 0 && hasFlag b.flags blkFragmentBlock
                   then W.sets ++ [(b.index, loc, sizeWord b)] else W.sets,
           effs := W.effs ++ blockEffs b loc }
